@@ -30,6 +30,7 @@ type Identity struct {
 	Confirm      bool
 	Expiry       time.Time // zero: never
 	Gen          int       // harness bookkeeping: insertion sequence number
+	NoSign       bool      // the agent lists it but cannot sign with it here (e.g. a security-key identity)
 }
 
 // Event is one request seen by the agent model.
@@ -121,6 +122,19 @@ func (a *Agent) DirectRemove(blob []byte) bool {
 	return false
 }
 
+// DirectAddListing inserts an identity that is listed but cannot sign (format + blob + comment).
+func (a *Agent) DirectAddListing(format string, blob []byte, comment string, cert *ssh.Certificate) {
+	a.mu.Lock()
+	defer a.mu.Unlock()
+	a.seq++
+	id := &Identity{Blob: blob, Format: format, Comment: comment, Cert: cert, NoSign: true, Gen: a.seq}
+	if old := a.find(blob); old != nil {
+		*old = *id
+		return
+	}
+	a.ids = append(a.ids, id)
+}
+
 // DirectLock sets the lock flag behind the client's back.
 func (a *Agent) DirectLock(locked bool, pass []byte) {
 	a.mu.Lock()
@@ -180,6 +194,10 @@ func (a *Agent) SignWithFlags(key ssh.PublicKey, data []byte, flags agent.Signat
 	if id == nil {
 		a.rec(ev)
 		return nil, errors.New("refagent: key not found")
+	}
+	if id.NoSign {
+		a.rec(ev)
+		return nil, errors.New("refagent: the device of this key is not attached")
 	}
 	var sig *ssh.Signature
 	var err error
@@ -345,7 +363,9 @@ func (a *Agent) Signers() ([]ssh.Signer, error) {
 	}
 	var out []ssh.Signer
 	for _, id := range a.ids {
-		out = append(out, id.Signer)
+		if id.Signer != nil {
+			out = append(out, id.Signer)
+		}
 	}
 	return out, nil
 }
